@@ -397,9 +397,11 @@ def r10_stall(repo, sink):
             o.fields.update(name=cn, status=Sym("enum", "ComponentStatus", "INITIALIZED"), _script=sc, _i=0,
                             logger=Logger(label="logger"))
             comps.append(o)
+        from ..absbase import seed_from_init
         me = Obj(cls=comp_cls, label="composition")
-        me.fields.update(_components=comps, logger=Logger(label="logger"))
         it = _ConnInterp(repo)
+        seed_from_init(it, comp_cls, me, {"components": comps})
+        me.fields["logger"] = Logger(label="logger")
         why = None
         try:
             it.run(f, [Sym("start")], self_obj=me)
